@@ -92,6 +92,9 @@ func errCode(err error) string {
 	case io.EOF:
 		return "Geof"
 	}
+	if err.Error() == "EvalSymlinks: too many links" {
+		return "Gtoomany"
+	}
 	return "X" + tok(fmt.Sprintf("%T:%v", err, err))
 }
 
@@ -223,6 +226,9 @@ func (w *fsWorld) apply(t []string) string {
 	case "ES":
 		s, err := v.EvalSymlinks(untok(t[2]))
 		if err != nil {
+			if projMode {
+				return "E " + errCode(err)
+			}
 			return "EP " + errCode(err) + " " + tok(errPath(err))
 		}
 		return "S " + tok(s)
